@@ -42,7 +42,7 @@ pub fn property() -> Property {
             },
             Part {
                 name: "engine",
-                quick: 800,
+                quick: 2_000,
                 thorough: 15_000,
                 single_shard: false, supplementary: false,
                 run: |cfg| run_part(cfg, (gen::raw_pos(60), 0..10u8, any::<u16>()), |(r, k, x)| rep_case(r, *k, *x), check_engine_rep),
@@ -50,7 +50,7 @@ pub fn property() -> Property {
             },
             Part {
                 name: "forced_repetition",
-                quick: 6_000,
+                quick: 10_000,
                 thorough: 100_000,
                 single_shard: false, supplementary: false,
                 run: |cfg| run_part(cfg, (prop_oneof![3 => gen::raw_synth_profiles(6, 7).prop_map(gen::RawPos::Synth), 1 => gen::raw_pos_endgames()], 4..=6u32), |(r, d)| forced_case(r, *d), check_forced),
@@ -58,7 +58,7 @@ pub fn property() -> Property {
             },
             Part {
                 name: "fifty",
-                quick: 800,
+                quick: 1_600,
                 thorough: 15_000,
                 single_shard: false, supplementary: false,
                 run: |cfg| run_part(cfg, (gen::raw_pos_endgames(), 0..151u32, 1..=2u32), |(r, h, d)| fifty_case(r, *h, *d), check_fifty),
@@ -275,7 +275,7 @@ fn rep_case(r: &gen::RawPos, kind: u8, x: u16) -> RepCase {
     let u = |m: Mv| m.uci();
     // kinds 8, 9: the first occurrence is CREATED by a capture or pawn move inside the move list
     if kind >= 8 {
-        for x0 in p.legal_moves().into_iter().filter(|&m| p.is_capture(m) || matches!(p.board[m.from as usize], Some((_, Kind::Pawn)))).filter(|m| m.promo.is_none()).skip((x % 3) as usize).take(6) {
+        for x0 in p.legal_moves().into_iter().filter(|&m| p.is_capture(m) || matches!(p.board[m.from as usize], Some((_, Kind::Pawn)))).filter(|m| m.promo.is_none()).skip((x % 3) as usize).take(24) {
             let mut q = p.apply(x0);
             q.ep = None; // (model only; the engine's e.p. square after a double step would differ from later occurrences)
             if p.apply(x0).ep.is_some() {
